@@ -37,7 +37,7 @@ fn find_closing_paren(s: &str) -> Option<usize> {
 /// Copy of `tokens` in which the contents of string literals are blanked out byte for byte, so
 /// that keywords (`min`, `max`, `email`, ...) are only found outside messages while byte
 /// offsets stay valid for the original text
-fn mask_string_literals(tokens: &str) -> String {
+pub(crate) fn mask_string_literals(tokens: &str) -> String {
     let mut masked = String::with_capacity(tokens.len());
     let mut in_string = false;
     let mut escaped = false;
